@@ -480,6 +480,11 @@ func ext۰reflect۰MakeSlice(fr *frame, args []value) value {
 	return makeReflectValue(t, sl[:n])
 }
 
+func ext۰reflect۰MakeMap(fr *frame, args []value) value {
+	t := typeArg(args[0])
+	return makeReflectValue(t, makeMap(t.Underlying().(*types.Map).Key()))
+}
+
 func reflectKind(t types.Type) reflect.Kind {
 	switch t := t.(type) {
 	case *types.Named, *types.Alias:
@@ -608,6 +613,56 @@ func ext۰reflect۰Value۰Len(fr *frame, args []value) value {
 	}
 }
 
+func ext۰reflect۰Value۰Cap(fr *frame, args []value) value {
+	switch v := rV2V(args[0]).(type) {
+	case array:
+		return len(v)
+	case []value:
+		return cap(v)
+	default:
+		panic(targetPanicMsg(fmt.Sprintf("reflect: call of reflect.Value.Cap on %s Value", reflectTypeString(rV2T(args[0]).t))))
+	}
+}
+
+func ext۰reflect۰Value۰Grow(fr *frame, args []value) value {
+	p := fr.i.rvSettable(args[0], "Grow")
+	st, ok := rV2T(args[0]).t.Underlying().(*types.Slice)
+	if !ok {
+		panic(targetPanicMsg("reflect: call of reflect.Value.Grow on non-slice Value"))
+	}
+	n := args[1].(int)
+	sl, _ := (*p).([]value)
+	if len(sl)+n <= cap(sl) {
+		return nil
+	}
+	nc := 2*cap(sl) + n
+	grown := make([]value, nc)
+	copy(grown, sl)
+	for k := len(sl); k < nc; k++ {
+		grown[k] = zero(st.Elem())
+	}
+	*p = grown[:len(sl)]
+	return nil
+}
+
+func ext۰reflect۰Value۰SetZero(fr *frame, args []value) value {
+	p := fr.i.rvSettable(args[0], "SetZero")
+	t := rV2T(args[0]).t
+	store(t, p, zero(t))
+	return nil
+}
+
+func ext۰reflect۰Value۰SetLen(fr *frame, args []value) value {
+	p := fr.i.rvSettable(args[0], "SetLen")
+	sl, _ := (*p).([]value)
+	n := args[1].(int)
+	if n < 0 || n > cap(sl) {
+		panic(targetPanicMsg("reflect: slice length out of range in SetLen"))
+	}
+	*p = sl[:n]
+	return nil
+}
+
 func ext۰reflect۰Value۰MapIndex(fr *frame, args []value) value {
 	tElem := rV2T(args[0]).t.Underlying().(*types.Map).Elem()
 	k := rV2V(args[1])
@@ -630,6 +685,64 @@ func ext۰reflect۰Value۰MapKeys(fr *frame, args []value) value {
 		}
 	}
 	return keys
+}
+
+func ext۰reflect۰Value۰SetMapIndex(fr *frame, args []value) value {
+	m, _ := rV2V(args[0]).(*omap)
+	if m == nil {
+		panic(targetPanicMsg("assignment to entry in nil map"))
+	}
+	fr.i.noteMapWrite(m)
+	mt := rV2T(args[0]).t.Underlying().(*types.Map)
+	k := assignTo(mt.Key(), args[1])
+	if !rvValid(args[2]) {
+		m.delete(fr.i, k)
+		return nil
+	}
+	ev := assignTo(mt.Elem(), args[2])
+	m.insert(fr.i, k, load(mt.Elem(), &ev))
+	return nil
+}
+
+// MapRange / MapIter: the iterator is a host handle over a snapshot of the
+// live entries (insertion order, as everywhere in this executor).
+type mapIterState struct {
+	tKey, tElem types.Type
+	keys, vals  []value
+	pos         int
+}
+
+func ext۰reflect۰Value۰MapRange(fr *frame, args []value) value {
+	mt := rV2T(args[0]).t.Underlying().(*types.Map)
+	st := &mapIterState{tKey: mt.Key(), tElem: mt.Elem(), pos: -1}
+	if m, _ := rV2V(args[0]).(*omap); m != nil {
+		for _, e := range m.entries {
+			if e.live {
+				st.keys = append(st.keys, e.key)
+				st.vals = append(st.vals, e.val)
+			}
+		}
+	}
+	var cell value = hostHandle{st}
+	return &cell
+}
+
+func mapIterOf(v value) *mapIterState { return (*v.(*value)).(hostHandle).p.(*mapIterState) }
+
+func ext۰reflect۰MapIter۰Next(fr *frame, args []value) value {
+	st := mapIterOf(args[0])
+	st.pos++
+	return st.pos < len(st.keys)
+}
+
+func ext۰reflect۰MapIter۰Key(fr *frame, args []value) value {
+	st := mapIterOf(args[0])
+	return makeReflectValue(st.tKey, st.keys[st.pos])
+}
+
+func ext۰reflect۰MapIter۰Value(fr *frame, args []value) value {
+	st := mapIterOf(args[0])
+	return makeReflectValue(st.tElem, st.vals[st.pos])
 }
 
 func ext۰reflect۰Value۰NumField(fr *frame, args []value) value {
